@@ -615,6 +615,8 @@ def _read(m, desc):
         r = {k: _read(m, x) for k, x in desc[2].items()}
         r["__cls__"] = desc[1]
         return r
+    if kind == "opaque":
+        return {"__opaque__": str(desc[1])}      # no native counterpart: a replay of this input is not meaningful
     return None
 
 
@@ -910,25 +912,10 @@ def _worker(idx, timeout_ms, conn):
         conn.close()
 
 
-def solve(reports, timeout_ms=20000, procs=None, hints=None):
-    """Discharges all obligations: one forked process per obligation (z3 terms are inherited, every
-    worker starts from the same parent state, so verdicts do not depend on scheduling), at most
-    `procs` at a time, each killed by the parent if it overruns its total budget."""
-    global _OBLS
-    _OBLS = []
-    for rep in reports:
-        for ob in rep.obligations:
-            if ob.status is None:
-                if hints and ob.name in hints:
-                    ob.meta["hint"] = hints[ob.name]
-                _OBLS.append((ob, rep.mk.obs))
-    n = len(_OBLS)
-    if n == 0:
-        return
-    procs = procs or 16
+def _run_pool(indices, timeout_ms, procs):
     ctxm = mp.get_context("fork")
     hard = 2.0 * timeout_ms / 1000.0 + 20.0
-    pending = list(range(n))
+    pending = list(indices)
     running = {}
     results = {}
     while pending or running:
@@ -964,6 +951,36 @@ def solve(reports, timeout_ms=20000, procs=None, hints=None):
             pc.close()
         if not done:
             time.sleep(0.01)
+    return results
+
+
+def solve(reports, timeout_ms=20000, procs=None, hints=None):
+    """Discharges all obligations: one forked process per obligation (z3 terms are inherited, every
+    worker starts from the same parent state, so verdicts do not depend on scheduling), at most
+    `procs` at a time, each killed by the parent if it overruns its total budget."""
+    global _OBLS
+    _OBLS = []
+    for rep in reports:
+        for ob in rep.obligations:
+            if ob.status is None:
+                if hints and ob.name in hints:
+                    ob.meta["hint"] = hints[ob.name]
+                _OBLS.append((ob, rep.mk.obs))
+    n = len(_OBLS)
+    if n == 0:
+        return
+    procs = procs or 16
+    results = _run_pool(list(range(n)), timeout_ms, procs)
+    # second pass for obligations that ran out of time (killed / unknown without a candidate model): they are re-run a few at a
+    # time with a larger budget once the pool has drained, so that a verdict does not depend on how busy the machine was
+    again = [i for i, r in results.items() if r[1] == "undecided" and r[4] is None and not str(r[5]).startswith("encoding error")]
+    if again and len(again) <= 24:
+        second = _run_pool(again, int(timeout_ms * 1.5), min(4, procs))
+        for i, r in second.items():
+            if r[1] != "undecided":
+                results[i] = (r[0], r[1], r[2], r[3] + results[i][3], r[4], str(results[i][5]) + " || second pass: " + str(r[5]))
+            else:
+                results[i] = (r[0], r[1], r[2], r[3] + results[i][3], r[4], str(results[i][5]) + " || second pass: " + str(r[5]))
     for idx, status, backend, dt, model, reason in results.values():
         ob = _OBLS[idx][0]
         ob.status, ob.backend, ob.time, ob.model, ob.reason = status, backend, dt, model, reason
